@@ -13,6 +13,7 @@ import (
 	"github.com/antonmedv/expr/optimizer"
 	"github.com/antonmedv/expr/parser"
 	"github.com/antonmedv/expr/parser/lexer"
+	"github.com/antonmedv/expr/verifseam"
 	"github.com/antonmedv/expr/vm"
 
 	"verif/mc/snap"
@@ -22,6 +23,8 @@ import (
 // variables (generated from the sources under test, so a variable added by a later change
 // is included automatically).
 func init() {
+	verifseam.PointHook = c08PointHook
+	c08PointsAvailable = true
 	globalsSnap = func() string {
 		return snap.String(map[string]interface{}{
 			"expr": expr.VerifGlobalsOfExpr(), "ast": ast.VerifGlobalsOfAst(), "checker": checker.VerifGlobalsOfChecker(),
